@@ -153,9 +153,15 @@ def _run_tlc(module, cfg, workers=4, timeout=900, env_extra=None, simulate=None,
     return res
 
 
+CURRENT_PID = None
+
+
 def run_vh(args, timeout=1800):
     """Run the harness; returns its report dict."""
     t = time.time()
+    args = list(args)
+    if CURRENT_PID and "--for" not in args:
+        args += ["--for", CURRENT_PID]
     p = subprocess.run(["timeout", str(timeout), VH] + [str(a) for a in args],
                        stdout=subprocess.PIPE, stderr=subprocess.PIPE, text=True)
     rep = None
